@@ -500,6 +500,9 @@ func h2Settings(r Rand) h2Frame {
 	return h2Frame{typ: http2.FrameSettings, payload: p}
 }
 
+// HTTP2Valid is a well-formed HTTP/2 prior-knowledge opening (preface, SETTINGS, HEADERS).
+func HTTP2Valid(r Rand) []byte { return http2Valid(r) }
+
 func http2Valid(r Rand) []byte {
 	out := clone(h2Preface)
 	out = append(out, h2Settings(r).bytes()...)
@@ -537,6 +540,18 @@ func http2Valid(r Rand) []byte {
 		flags |= http2.FlagHeadersEndStream
 	}
 	block := h2Headers(fields)
+	if oneIn(r, 6, "h2.dynref") {
+		// a block that names its authority by a reference into the HPACK dynamic table (index 62,
+		// the newest entry) although this connection has put nothing there: undecodable on its
+		// own - unless decoder state leaks in from somewhere else
+		var rest [][2]string
+		for _, f := range fields {
+			if f[0] != ":authority" {
+				rest = append(rest, f)
+			}
+		}
+		block = append(h2Headers(rest), 0xBE)
+	}
 	hf := h2Frame{typ: http2.FrameHeaders, flags: flags, stream: 1, payload: block}
 	if oneIn(r, 4, "h2.hprio") { // HEADERS carrying priority information
 		hf.flags |= http2.FlagHeadersPriority
